@@ -1,5 +1,7 @@
 import CanvasModel.Driver
 import CanvasModel.C16
+import CanvasModel.C16.Stack
+import CanvasModel.C16.Glue
 open Canvas Canvas.C16
 
 /-! Line protocol of the C16 driver
@@ -11,6 +13,11 @@ open Canvas Canvas.C16
 `RO (level x w)*`  → new x of every span
 `SI (sc lv zw repl)*` → `sc:lv:len …`
 `IX loc starts…` → index
+`ST ls height valign (asc desc bot empty)*` → `k y… | Height | top bottom`   (stacking, Text.Heights)
+`BD (x w y asc desc)*` → Bounds `x0 y0 x1 y1`
+`GA ratio m | (B|G|P):size:w:y:z … | XAdvance…` → the first m adjusted advances
+`AL (L|R|C|J) width indent first w…` → X of every span of the line (before reorderSpans)
+`CV classes | a:b a:b / a:b / / …`  (verdict line) → `ok` | `FAIL kind pos`
 -/
 
 def parseAlign? : String → Option Align
@@ -68,7 +75,78 @@ partial def parseRunes : Nat → List String → List R → Option (List R)
     parseRunes (i + 1) rest (⟨sc, lv, zw == "1", rp == "1", i⟩ :: acc)
   | _, _, _ => none
 
+partial def parseLMs : List String → List (LM Float) → Option (List (LM Float))
+  | [], acc => some acc.reverse
+  | a :: d :: b :: e :: rest, acc => do
+    parseLMs rest (⟨← floatOfHex? a, ← floatOfHex? d, ← floatOfHex? b, e == "1"⟩ :: acc)
+  | _, _ => none
+
+def parseVA? : String → Option VAlign
+  | "T" => some .top | "C" => some .center | "B" => some .bottom | "J" => some .justify | _ => none
+
+partial def parseRects : List String → List (R4 Float) → Option (List (R4 Float))
+  | [], acc => some acc.reverse
+  | x :: w :: y :: a :: d :: rest, acc => do
+    parseRects rest (spanRect (← floatOfHex? x) (← floatOfHex? w) (← floatOfHex? y) (← floatOfHex? a) (← floatOfHex? d) :: acc)
+  | _, _ => none
+
+def parseGItem? (s : String) : Option (GItem Float) :=
+  match s.splitOn ":" with
+  | [t, sz, w, y, z] => do
+    let ty ← (match t with | "B" => some Ty.box | "G" => some Ty.glue | "P" => some Ty.pen | _ => none)
+    some ⟨ty, ← sz.toNat?, ← floatOfHex? w, ← floatOfHex? y, ← floatOfHex? z⟩
+  | _ => none
+
+def parseRC? : Char → Option RC
+  | 's' => some .sp | 'r' => some .cr | 'l' => some .lf | 'n' => some .nl | 'z' => some .zw | 'h' => some .shy | 'c' => some .ch | _ => none
+
+def parseSpan? (s : String) : Option (Nat × Nat) :=
+  match s.splitOn ":" with
+  | [a, b] => do some (← a.toNat?, ← b.toNat?)
+  | _ => none
+
+def splitSlash (l : List String) : List (List String) :=
+  let r := l.foldr (fun s (acc : List String × List (List String)) => if s == "/" then ([], acc.1 :: acc.2) else (s :: acc.1, acc.2)) ([], [])
+  r.1 :: r.2
+
+def showInt (x : Float) : String := toString (Float.toInt64 x).toInt
+
 def handle : List String → Option String
+  | "ST" :: ls :: height :: va :: rest => do
+    let ls ← floatOfHex? ls
+    let height ← floatOfHex? height
+    let va ← parseVA? va
+    let lines ← parseLMs rest []
+    let r := stackLines (fun n => Float.ofNat n) ls height va lines
+    let hs := textHeights r.ys (lines.take r.ys.length)
+    some (String.intercalate " " ([toString r.ys.length] ++ r.ys.map hexOfFloat ++ ["|", hexOfFloat r.height, "|", hexOfFloat hs.1, hexOfFloat hs.2]))
+  | "BD" :: rest => do
+    let rs ← parseRects rest []
+    let b := boundsOf goMin goMax rs
+    some s!"{hexOfFloat b.x0} {hexOfFloat b.y0} {hexOfFloat b.x1} {hexOfFloat b.y1}"
+  | "GA" :: ratio :: m :: rest => do
+    let ratio ← floatOfHex? ratio
+    let m ← m.toNat?
+    match splitBar rest with
+    | [_, its, advs] =>
+      let items ← its.mapM parseGItem?
+      let advs ← advs.mapM (fun s => s.toInt?.map Float.ofInt)
+      let out := adjustLine Float.isInf incFloat (fun r => r == 0.0) ratio items advs
+      some (String.intercalate " " ("a" :: (out.take m).map showInt))
+    | _ => none
+  | "AL" :: h :: width :: indent :: first :: rest => do
+    let h ← (match h with | "L" => some HAlign.left | "R" => some HAlign.right | "C" => some HAlign.center | "J" => some HAlign.justify | _ => none)
+    let ws ← rest.mapM floatOfHex?
+    some (String.intercalate " " ("x" :: (alignLine h (← floatOfHex? width) (← floatOfHex? indent) (first == "1") ws).map hexOfFloat))
+  | "CV" :: cls :: rest => do
+    let cls ← (cls.toList.drop 1).mapM parseRC?
+    match rest with
+    | "|" :: ls =>
+      let lines ← (splitSlash ls).dropLast.mapM (fun l => l.mapM parseSpan?)
+      match conserve cls lines with
+      | .ok => some "ok"
+      | .fail k p => some s!"FAIL {k} at={p}"
+    | _ => none
   | "G2I" :: al :: indent :: rest => do
     let al ← parseAlign? al
     let indent ← floatOfHex? indent
